@@ -331,7 +331,11 @@ def family_checks(ck, rng, base, es):
     want = {esd_name: [0, 2, 0], "BV": [nsvc, 3, 4], "EV": [nsvc, 3, 4]}
     rep = {"old": Lm, "family": True, "esd_name": esd_name}
     by_name = {dl.short_name: dl for dl in db.diag_layers}
+    first = Lm["services"][0]["name"] if Lm["services"] else "nosuch"
     runs = [("list tool, all layers", lambda: list_tool.print_summary(db)),
+            # asking the tool to print one service only does not change how many services a layer has
+            ("list tool, one service selected (--services)",
+             lambda: list_tool.print_summary(db, print_services=True, service_filter=lambda sv: sv.short_name == first)),
             ("print_dl_metrics, shared data last", lambda: print_dl_metrics([by_name["BV"], by_name["EV"], by_name[esd_name]])),
             ("print_dl_metrics, shared data first", lambda: print_dl_metrics([by_name[esd_name], by_name["EV"], by_name["BV"]]))]
     os.environ["COLUMNS"] = "250"  # (rich truncates cells to the width of the terminal)
@@ -340,7 +344,7 @@ def family_checks(ck, rng, base, es):
         with contextlib.redirect_stdout(buf):
             r2, e2, _ = cc.guarded(fn)
         ck.count(("family", what, esd_name, json.dumps(Lm)))
-        rows = overview_rows(buf.getvalue(), list(want))
+        rows = overview_rows(buf.getvalue().split("Diagnostic layer:")[0], list(want))
         if e2 is not None or rows != want:
             ck.violation(f"{what}: the overview shows {rows} (services, DOPs, communication parameters per layer)"
                          + (f" and raised {type(e2).__name__}: {e2}" if e2 is not None else "") + f", the actual numbers are {want}",
@@ -364,6 +368,63 @@ def family_checks(ck, rng, base, es):
             ck.violation(f"edit '{label}' of the base variant: comparing the base variants reports {key(r_bv)}, comparing the ECU variants "
                          f"which inherit all of it reports {key(r)}", dict(rep, new=new, edit=label, expect=exp))
             return
+
+
+def cli_compare_many(ck):
+    """`odxtools compare A -db B C` compares A with B and then A with C.  With C an identical copy of B the two reports
+    are the same, apart from the file name; with C a copy of A the second report shows no change at all."""
+    import argparse
+    import contextlib
+    import re
+    import shutil
+    import tempfile
+    import odxtools.cli.compare as cmp_tool
+    ex = os.path.join(common.REPO, "examples")
+    d = tempfile.mkdtemp(prefix="c18cli_", dir="/var/tmp")
+    try:
+        a, b = os.path.join(d, "a.pdx"), os.path.join(d, "b.pdx")
+        shutil.copy(os.path.join(ex, "somersault_modified.pdx"), a)
+        shutil.copy(os.path.join(ex, "somersault.pdx"), b)
+        shutil.copy(b, os.path.join(d, "c.pdx"))
+        shutil.copy(a, os.path.join(d, "a2.pdx"))
+        os.environ["COLUMNS"] = "250"
+
+        def run(others, variants=None):
+            args = argparse.Namespace(pdx_file=a, database=[os.path.join(d, x) for x in others], variants=variants, no_details=True)
+            buf = io.StringIO()
+            with contextlib.redirect_stdout(buf):
+                _, e, _ = cc.guarded(lambda: cmp_tool.run(args), timeout=120)
+            txt = buf.getvalue()
+            secs = re.split(r"Changes in file '[^']*'?\s*\(compared to '([^']*)'\)", txt)
+            # -> [head, name1, body1, name2, body2, ...]
+            norm = lambda t: "\n".join(l.rstrip() for l in t.strip().splitlines())
+            return e, {secs[i]: norm(secs[i + 1]) for i in range(1, len(secs) - 1, 2)}, txt
+
+        for variants in (None, ["somersault_lazy"]):
+            e, secs, txt = run(["b.pdx", "c.pdx"], variants)
+            ck.count(("cli-compare", "b c", str(variants)))
+            rep = {"cli": f"compare a.pdx -db b.pdx c.pdx (a = somersault_modified, b = c = somersault), variants={variants}"}
+            if e is not None or set(secs) != {"b.pdx", "c.pdx"}:
+                ck.violation(f"compare with two further databases raised {e!r} / printed the sections {sorted(secs)}", dict(rep, output=txt[-600:]))
+                return
+            if secs["b.pdx"].replace("b.pdx", "X") != secs["c.pdx"].replace("c.pdx", "X"):
+                ck.violation("compare a -db b c with c an identical copy of b: the changes reported against c differ from those "
+                             "reported against b", dict(rep, against_b=secs["b.pdx"][-700:], against_c=secs["c.pdx"][-700:]))
+                return
+            if "tester_present" not in secs["b.pdx"] and "hanged" not in secs["b.pdx"]:
+                ck.note_broken("the shipped pair somersault / somersault_modified no longer differs in a way the tool prints")
+            e, secs2, txt2 = run(["b.pdx", "a2.pdx"], variants)
+            ck.count(("cli-compare", "b a2", str(variants)))
+            if e is not None or set(secs2) != {"b.pdx", "a2.pdx"}:
+                ck.violation(f"compare with two further databases raised {e!r} / printed the sections {sorted(secs2)}", dict(rep, output=txt2[-600:]))
+                return
+            e0, secs0, _ = run(["a2.pdx"], variants)
+            if e0 is None and "a2.pdx" in secs0 and secs2["a2.pdx"] != secs0["a2.pdx"]:
+                ck.violation("compare a -db b a2 with a2 an identical copy of a: the second comparison does not report what comparing "
+                             "a with a2 alone reports (no change)", dict(rep, second=secs2["a2.pdx"][-700:], alone=secs0["a2.pdx"][-700:]))
+                return
+    finally:
+        shutil.rmtree(d, ignore_errors=True)
 
 
 def run_compare(dl_new, dl_old):
@@ -448,6 +509,13 @@ def main(argv=None):
                 ck.violation(f"edit '{label}' of parameter {exp['param']}: the changed property '{exp['prop']}' is not listed "
                              f"(listed: {r['props']})", rep)
                 continue
+            elif label in ("change-bytepos", "change-semantic", "change-bl", "change-value", "change-bt") and \
+                    r["props"] != [exp["prop"]]:
+                # one attribute of one parameter was edited: exactly that kind of change, once (linking another data object
+                # also changes what is derived from it -- its name, its bit length -- and is not held to this)
+                ck.violation(f"edit '{label}' of parameter {exp['param']} (one attribute of one parameter): the reported property "
+                             f"changes are {r['props']}, the edit is exactly ['{exp['prop']}']", rep)
+                continue
             try:
                 for w_, i_, d_ in param_cases(db_new.diag_layers[0], dl_old, f"edit '{label}'"):
                     ppending.append((w_, i_, d_, rep))
@@ -520,6 +588,11 @@ def main(argv=None):
             ck.note_broken(f"model execution failed: {e}")
     elif not ck.model_available():
         ck.note_broken("model not built")
+    if not ck.replay:
+        try:
+            cli_compare_many(ck)
+        except Exception as e:  # noqa
+            ck.note_broken(f"the compare tool could not be driven with several databases: {type(e).__name__}: {e}")
     # attribute level: the shipped example pair too (units, text tables, structures, physical constants)
     if not ck.replay:
         try:
